@@ -138,14 +138,9 @@ class ActionSelection(Mapping):
     def __iter__(self):
         # Given not all actions have names, there will actions whose keys
         # will be numbers and not names.
-        i = -1
-        for i, (name, v) in enumerate(self._name2idx.items()):
-            while i < v:
-                yield i
-                i += 1
-            yield name
-        for i in range(i + 1, len(self)):
-            yield i
+        idx2name = {idx: name for name, idx in self._name2idx.items()}
+        for i in range(len(self)):
+            yield idx2name.get(i, i)
 
     def __len__(self):
         return len(self._actions)
